@@ -51,7 +51,7 @@ func (g *commonGen) weight(kind string) int {
 
 // enabledKinds lists the step kinds the configuration supports.
 func enabledKinds(c *Config) []string {
-	ks := []string{"advance", "probe", "drop_session"}
+	ks := []string{"advance", "probe", "drop_session", "restart"}
 	has := c.hasModule
 	if has("auth") {
 		ks = append(ks, "login", "login_get")
@@ -537,6 +537,14 @@ func (g *commonGen) fill(w *World, kind string, b int) Step {
 		case 5: // state of another browser
 			ob := g.r.Intn(len(w.Browsers))
 			st.Sec = &SecretRef{Kind: "literal", Lit: w.Browsers[ob].Session["oauth2_state"]}
+		case 6: // a code obtained at another provider delivered to this provider's callback route
+			if len(c.Providers) > 1 {
+				for _, p := range c.Providers {
+					if p != prov {
+						st.Str["code_provider"] = p
+					}
+				}
+			}
 		}
 	case "probe":
 		paths := []string{"/probe/open", "/probe/mw/0/0/0/p", "/probe/mw/1/0/0/p", "/probe/mw/2/2/0/p", "/probe/mw/3/1/0/p", "/probe/mw/1/1/1/p"}
